@@ -199,7 +199,8 @@ fn sigmf_extreme(rng: &mut Rng, idx: usize, dir: &std::path::Path, kind: usize) 
     // places where a parser might cut it, wrong type, very long
     let dts = ["ru8_le", "ru8_le", "ru8_le", "", "r", "cf", "le", "_le", "ru8", "ru8_l", "cf32_le", "ri16_be", "ru8_l\u{e9}",
         "r\u{20ac}", "\u{20ac}\u{20ac}", "\u{e9}le", "ru8_le_and_a_lot_more_text_than_any_datatype_has", "RU8_LE", "ru8-le", "ci8"];
-    let dt = dts[rng.below(dts.len())];
+    // (three quarters of the cases keep the valid datatype, so that the other fields are reached)
+    let dt = if rng.chance(1, 4) { dts[rng.below(dts.len())] } else { "ru8_le" };
     let mut glob = vec![format!("\"core:datatype\": \"{dt}\""), "\"core:version\": \"1.1.0\"".to_string()];
     if rng.chance(1, 2) {
         glob.push(format!("\"core:sample_rate\": {}", floats[rng.below(floats.len())]));
